@@ -39,6 +39,7 @@ def main() -> int:
     orders = r.printed("ORDER")
     rnd = random.Random(E.seed() + 5)
     decks = corpus.decks() if thorough else sorted(set(corpus.subset(10, E.seed()) + corpus.key_decks()))
+    decks += RO.gen_decks(os.path.join(work, "gen"))
     per_deck = 60 if thorough else 10
     jobs = []
     if replay:
